@@ -51,7 +51,10 @@ ALGOS["PYDOE_FULLFACT"] = {"fam": "fullfact", "seedkw": None, "settings": _n}
 ALGOS["OT_AXIAL"] = {"fam": "axial", "seedkw": "seed", "settings": _n}
 ALGOS["OT_FACTORIAL"] = {"fam": "factorial", "seedkw": "seed", "settings": _n}
 ALGOS["OT_COMPOSITE"] = {"fam": "composite", "seedkw": "seed", "settings": _n}
-ALGOS["MorrisDOE"] = {"fam": "morris", "seedkw": None, "settings": _n}
+# step: default 0.05, 0.25, and 0.75 (> 1/2: cannot be honoured inside the bounds, logged as p = 1)
+ALGOS["MorrisDOE"] = {"fam": "morris", "seedkw": None,
+                      "settings": lambda n, d, v: ({"n_samples": n, **({} if v % 3 == 0 else {"step": (0.25, 0.75)[v % 3 - 1]})},
+                                                   n, 1 if v % 3 == 2 else 0)}
 ALGOS["OT_SOBOL_INDICES"] = {"fam": "sobolidx", "seedkw": "seed",
                              "settings": lambda n, d, v: ({"n_samples": n, "eval_second_order": v % 2 == 0}, n,
                                                           1 if v % 2 == 0 else 0)}
@@ -64,7 +67,8 @@ ALGOS["PYDOE_CCDESIGN"] = {"fam": "cc", "seedkw": None,
 ALGOS["PYDOE_FF2N"] = {"fam": "ff2n", "seedkw": None, "settings": _none}
 ALGOS["PYDOE_PBDESIGN"] = {"fam": "pb", "seedkw": None, "settings": _none}
 ALGOS["OATDOE"] = {"fam": "oat", "seedkw": None,
-                   "settings": lambda n, d, v: ({"initial_point": np.full(d, 0.5), "step": 0.25}, 0, 0)}
+                   "settings": lambda n, d, v: ({"initial_point": np.full(d, 0.5), "step": 0.75 if v % 3 == 2 else 0.25},
+                                                0, 1 if v % 3 == 2 else 0)}
 ALGOS["CustomDOE"] = {"fam": "custom", "seedkw": None, "settings": None}     # samples built per space
 
 
